@@ -51,4 +51,7 @@ for g in $groups; do
   fi
 done
 [ $fail = 0 ] && echo BUILD-OK
+# "all" is the setup command: a file that fails to build is reported here but only fails the checks that need it
+# (every check rebuilds exactly its own targets and reports a broken proof obligation if they do not build).
+[ "$what" = all ] && exit 0
 exit $fail
